@@ -247,6 +247,20 @@ pub fn check_case(c: &Case, rep: &mut Report) {
                                     Ok(Ok(p)) => viol.push((format!("C16/tamper/{}/accepted-on-second-presentation", name), format!("op {} of {:?}: an altered sealed message ({} bytes) was refused once and accepted when presented again ({} bytes of plaintext)", i, c.ops, t.len(), p.len()))),
                                     Ok(Err(_)) => rep.hist("tamper-rejected-again"),
                                 }
+                                // the sending direction has its own keys, cipher state and sequence number: whatever was refused
+                                // on the way in, a message the context still seals is sealed as MS-NLMP says (a context that
+                                // refuses to seal from then on is not judged)
+                                let probe_pt = plaintext(c.key_seed, 7000 + i, 5);
+                                let want = f_c2s.wrap(&probe_pt);
+                                match mon::guarded(|| fresh.gss_wrapex(&probe_pt).map_err(|e| client::err_kind(&e))) {
+                                    Err(p) => viol.push((format!("C16/wrap-after-refused/{}/{}", name, p.sig()), format!("op {}: {}", i, p.msg))),
+                                    Ok(Ok(got)) if got != want => {
+                                        let d = got.iter().zip(want.iter()).position(|(a, b)| a != b);
+                                        viol.push((format!("C16/wrap-after-refused/{}/differs-from-MS-NLMP", name), format!("op {} of {:?}: after an altered message had been refused, the next message the context sealed differs from the reference at {:?}", i, c.ops, d)));
+                                    }
+                                    Ok(Ok(_)) => rep.hist("sealed-exactly-after-a-refusal"),
+                                    Ok(Err(_)) => rep.hist("refused-to-seal-after-a-refusal(not judged)"),
+                                }
                             }
                         }
                         // the other order, for one alteration in four: the genuine message is accepted first, then its altered
